@@ -2,11 +2,13 @@
 import Pyx12Verif.Drv.C13
 import Pyx12Verif.Drv.Walk
 import Pyx12Verif.Drv.C14
+import Pyx12Verif.Drv.C15
+import Pyx12Verif.Drv.C17
 
 open Pyx12Verif
 
 def handlers : List (List (List Char) → Option String) :=
-  [Drv.C13.handle, Drv.C14.handle]
+  [Drv.C13.handle, Drv.C14.handle, Drv.C15.handle, Drv.C17.handle]
 
 partial def loop (hin hout : IO.FS.Stream) (st : Drv.Walk.DState) : IO Unit := do
   let line ← hin.getLine
